@@ -236,6 +236,12 @@ FilterDoc(s, e) == Step(s, e).st = "ok" /\ Cur(s).cur <= 3
 AlphaDocCTE ==
   AlphaDoc \o << EvPad, [EvCmt EXCEPT !.k = "@cmt#1"], [EvCmt EXCEPT !.k = "@cmtm#1", !.multi = TRUE],
                  [EvCTxt(<<97>>) EXCEPT !.k = "@ctxt#1"] >>
+(* C09: markers on every kind of container (and references to them) inside lists, maps and  *)
+(* nodes - the cut points right after a marker and inside a marked container                *)
+AlphaMarked ==
+  << EvED, EvEnd, EvList, EvMap, EvNode, EvEdge, EvMark("a"), EvRef("a"),
+     PH("OnInt", "int", "int", "@int#1"), [EvStr(<<1>>) EXCEPT !.k = "@str#1"] >>
+FilterMarked(s, e) == Step(s, e).st = "ok" /\ Cur(s).cur <= 4 /\ Len(s.stack) <= 4
 (* C13, builder clause: references and markers at every position of lists long enough to   *)
 (* outgrow a slice's first capacity steps, and as map values                             *)
 AlphaRefs ==
